@@ -259,7 +259,7 @@ var catalog = map[string]map[string][]tagSpec{
 		"date":     {dateTag(0x0132, "DateTime", "ModifyDate")},
 	},
 	"Exif": {
-		"embLong":  {longTag(0xa002, "PixelXDimension", "ImageWidth", 65535), longTag(0xa003, "PixelYDimension", "ImageHeight", 65535)},
+		"embLong": {longTag(0xa002, "PixelXDimension", "ImageWidth", 65535), longTag(0xa003, "PixelYDimension", "ImageHeight", 65535)},
 		"embShort": {shortTag(0x8822, "ExposureProgram", "ExposureProgram", oneOf(0, 1, 2, 3, 4, 5, 6, 7, 8, 9)), shortTag(0x8827, "ISOSpeedRatings", "ISOSpeed", any16),
 			shortTag(0x9207, "MeteringMode", "MeteringMode", oneOf(0, 1, 2, 3, 4, 5, 6, 255)), shortTag(0x9209, "Flash", "Flash", oneOf(0, 1, 5, 7, 8, 9, 13, 15, 16, 24, 25, 29, 31, 32, 65, 69, 71, 73, 77, 79, 89, 93, 95)),
 			shortTag(0xa402, "ExposureMode", "ExposureMode", oneOf(0, 1, 2)), shortTag(0xa405, "FocalLengthIn35mmFilm", "FocalLengthIn35mmFormat", any16)},
@@ -518,4 +518,55 @@ func (d DateParts) Time(ms int, zoneSec int, hasZone bool) time.Time {
 		loc = time.FixedZone("", zoneSec)
 	}
 	return time.Date(d.Y, time.Month(d.Mo), d.D, d.H, d.Mi, d.S, ms*1000000, loc)
+}
+
+// BuildDirTIFF writes a TIFF block whose FIRST directory (at ifdAt) holds the given entries, with the
+// out-of-line values placed after the directory in entry order (a forward layout). Used for the CR3
+// CMT2 / CMT4 boxes, whose payload is a TIFF block rooted at the Exif / GPS directory.
+func BuildDirTIFF(es []AEntry, bind map[int]*Bound, order string, ifdAt int) []byte {
+	var bo binary.ByteOrder = binary.LittleEndian
+	if order == "BE" {
+		bo = binary.BigEndian
+	}
+	size := ifdAt + 2 + 12*len(es) + 4
+	offs := map[int]int{}
+	for _, e := range es {
+		if b := bind[e.Key]; b.Val.Size() > 4 {
+			offs[e.Key] = size
+			size += b.Val.Size()
+		}
+	}
+	buf := make([]byte, size)
+	for i := range buf {
+		buf[i] = 0xEE
+	}
+	if order == "BE" {
+		copy(buf, "MM\x00\x2a")
+	} else {
+		copy(buf, "II\x2a\x00")
+	}
+	bo.PutUint32(buf[4:], uint32(ifdAt))
+	bo.PutUint16(buf[ifdAt:], uint16(len(es)))
+	p := ifdAt + 2
+	for _, e := range es {
+		b := bind[e.Key]
+		typ := b.Val.Typ
+		if b.RawType != 0 || e.Cls == "inv" {
+			typ = b.RawType
+		}
+		bo.PutUint16(buf[p:], b.ID)
+		bo.PutUint16(buf[p+2:], typ)
+		bo.PutUint32(buf[p+4:], b.Val.Count())
+		slot := buf[p+8 : p+12]
+		copy(slot, []byte{0, 0, 0, 0})
+		if b.Val.Size() <= 4 {
+			copy(slot, b.Val.Encode(bo))
+		} else {
+			bo.PutUint32(slot, uint32(offs[e.Key]))
+			copy(buf[offs[e.Key]:], b.Val.Encode(bo))
+		}
+		p += 12
+	}
+	bo.PutUint32(buf[p:], 0)
+	return buf
 }
